@@ -48,12 +48,13 @@ conf() {
   case "$1" in
     C01) PKG=c01;;
     C02) PKG=c02;;
+    C03) PKG=c03;;
     *) return 1;;
   esac
   QT="${QT}"; return 0
 }
 
-ALL_IDS="C01 C02"
+ALL_IDS="C01 C02 C03"
 
 build_one() { # id -> builds $BIN
   conf "$1" || { echo "check.sh: unknown property $1" >&2; return 2; }
